@@ -2057,16 +2057,16 @@ class MatrixBase:
         vec._z = (x * self._ac) + (y * self._bc) + (z * self._cc)
 
     def __matmul__(self, other: 'MatrixBase | AngleBase') -> Self:
+        # Always work on a new matrix: copy() of a frozen matrix is that same object.
         if isinstance(other, MatrixBase):
-            mat = self.copy()
+            mat = Py_Matrix(self)
             mat._mat_mul(other)
-            return mat
         elif isinstance(other, AngleBase):
-            mat = self.copy()
+            mat = Py_Matrix(self)
             mat._mat_mul(Py_Matrix.from_angle(other))
-            return mat
         else:
             return NotImplemented
+        return mat if isinstance(self, Py_Matrix) else mat.freeze()  # type: ignore[return-value]
 
     @overload
     def __rmatmul__(self, other: FrozenVec) -> FrozenVec: ...
@@ -2096,9 +2096,9 @@ class MatrixBase:
             cls = type(other)
             return mat._to_angle(cls.__new__(cls))
         elif isinstance(other, MatrixBase):
-            mat = other.copy()
+            mat = Py_Matrix(other)  # Not copy(), a frozen matrix returns itself.
             mat._mat_mul(self)
-            return mat
+            return mat if isinstance(other, Py_Matrix) else mat.freeze()
         else:
             return NotImplemented
 
